@@ -96,14 +96,14 @@ Qed.
    (only the SET expressions are evaluated in Python) *)
 Theorem fetch_update_in_sync sc m ur crit sets db r :
   m.(sub_table) = false -> incl m.(mpk) m.(tpk) -> keys_distinct m db -> In r db ->
-  row_ok sc r -> targets_distinct sets = true -> sets_independent sets = true -> forallb (set_ok sc r) sets = true ->
+  row_ok sc r -> targets_distinct sets = true -> forallb (set_ok sc r) sets = true ->
   exists o', fetch_update_obj sc m (fetch_keys m ur crit db) sets r = OOk o' /\
              forall c, o' c = obj_of (update_row crit sets r) c.
 Proof.
-  intros Hs Hi Hd Hr Hrow Ht Hin Hok. unfold fetch_update_obj.
+  intros Hs Hi Hd Hr Hrow Ht Hok. unfold fetch_update_obj.
   rewrite (in_keys_iff_selected m ur crit db r Hs Hi Hd Hr). rewrite update_row_upd.
   destruct (selected crit r).
-  - destruct (apply_sets_ok sc r Hrow sets [] (obj_of r) (fun c => eq_refl) Ht Hin Hok) as (o' & Ho' & Hfin).
+  - destruct (apply_sets_ok sc r sets Hrow Ht Hok) as (o' & Ho' & Hfin).
     exists o'. split; [exact Ho'|]. intros c. now rewrite (Hfin c).
   - exists (obj_of r). split; reflexivity.
 Qed.
